@@ -6,6 +6,7 @@ import (
 
 	"github.com/sahandsafizadeh/qeep/tensor"
 	"qmc/core"
+	"qmc/enum"
 	"qmc/ref"
 	"qmc/rt"
 )
@@ -502,6 +503,55 @@ func c08OpTable(c *core.Ctx) {
 			})
 		}
 	})
+	// n-ary Concat with MANY operands: all untracked except one (at the first,
+	// middle or last position) in each of the states T, S, D
+	for _, k := range operandCounts(c.Thorough()) {
+		for _, pos := range []int{0, k / 2, k - 1} {
+			for _, st := range []string{"T", "S", "D", "U"} {
+				k, pos, st := k, pos, st
+				c.Case(fmt.Sprintf("optable/ConcatN/k%d/p%d/%s", k, pos, st), true, func() core.Verdict {
+					rin := make([]tensor.Tensor, k)
+					for i := range rin {
+						x := enum.Generic([]int{2}, uint64(700+i), 0.5, 2, true)
+						if i == pos {
+							rin[i] = mkState(x, st)
+						} else {
+							rin[i] = rt.Make(x, false)
+						}
+					}
+					special := rin[pos]
+					before := special.Gradient()
+					y, err := tensor.Concat(append([]tensor.Tensor{}, rin...), 0)
+					if err != nil {
+						return core.Fail("Concat of %d tensors: %v", k, err)
+					}
+					tr, dirty, g, _, _ := tensor.VerifGradState(y)
+					wantTr := st == "T"
+					wantSpent := st == "S" || st == "D"
+					if tr != wantTr || dirty != wantSpent || g != nil {
+						return core.Fail("Concat of %d tensors, all untracked except operand %d in state %s (T tracked, S spent, D derived from spent): result tracked=%v spent=%v, expected tracked=%v spent=%v", k, pos, st, tr, dirty, wantTr, wantSpent)
+					}
+					if err := tensor.BackPropagate(y); err != nil {
+						return core.Fail("BackPropagate: %v", err)
+					}
+					if changed := special.Gradient() != before; changed != wantTr {
+						return core.Fail("Concat of %d tensors, operand %d in state %s: gradient assigned=%v, expected %v", k, pos, st, changed, wantTr)
+					}
+					if wantTr {
+						if ok, msg := core.ExactEq(rt.Read(special.Gradient()), ref.FullOf([]int{2}, 1)); !ok {
+							return core.Fail("Concat of %d tensors, tracked operand %d: gradient %s", k, pos, msg)
+						}
+						// the operand is spent now: a later result computed from it is untracked and spent
+						z := special.Scale(2)
+						if tr2, d2, _, _, _ := tensor.VerifGradState(z); tr2 || !d2 {
+							return core.Fail("Concat of %d tensors: operand %d was back-propagated through but a later result of it is tracked=%v spent=%v", k, pos, tr2, d2)
+						}
+					}
+					return core.Pass()
+				})
+			}
+		}
+	}
 	// comparisons: always untracked and fresh
 	for _, k := range ref.CompareKinds {
 		for code := 0; code < 16; code++ {
